@@ -116,6 +116,18 @@ def run(R):
         v = variants[(k + R.shard) % 8]
         substitutions(rng.choice([-1, 0, rng.randrange(-128, 128)]), rng.randbytes(32) if k else bytes(32), *v)
         R.cover('subst_variants', v)
+    # an address of a subclass of Address (applications subclass it) is an address: equal to, and hashing like, a plain one with the same workchain and id
+    class _SubAddress(Address):
+        pass
+    for wc, hp in ((0, rng.randbytes(32)), (-1, rng.randbytes(32)), (-128, bytes(32))):
+        plain = Address((wc, hp))
+        for how, sub in (('tuple', _SubAddress((wc, hp))), ('raw text', _SubAddress(plain.to_str(False))), ('friendly text', _SubAddress(plain.to_str(True, True, False, True)))):
+            W = {'wc': wc, 'hash_part': hp, 'subclass_built_from': how}
+            R.check(sub == plain and plain == sub and not (sub != plain) and hash(sub) == hash(plain) and len({sub, plain}) == 1, 'equality-across-address-classes',
+                    f'an Address subclass instance (built from {how}) and the plain Address with the same workchain and id do not compare equal / hash equally', W)
+            R.check(Address(sub.to_str()) == sub and _SubAddress(plain.to_str()) == plain and sub.to_str(False) == plain.to_str(False), 'equality-across-address-classes',
+                    'rendering one class and parsing with the other gives a different address', W)
+            R.count('subclass_address_pairs')
     # inequality sanity: different wc or id are different addresses
     a = Address((0, bytes(32)))
     R.check(not (a == Address((1, bytes(32)))) and not (a == Address((0, b'\x01' + bytes(31)))), 'neq', 'different addresses compare equal')
